@@ -114,9 +114,50 @@ def verify_branch(rep):
         rep.ob('channel parameters verified against the stored ones', 'inconclusive', detail=str(e)); return
     acc = [ok for k, ok in res if k == 'accept']; rej = [ok for k, ok in res if k == 'reject']
     good = bool(acc) and all(acc) and len(rej) >= len(ATTRS) and all(rej) and not any(k == 'abort' for k, _ in res)
-    rep.ob('a new session is accepted iff all 12 stored channel parameters equal its own; any single mismatch refuses it; the directory is untouched either way',
+    title_ = 'a new session is accepted iff all 12 stored channel parameters equal its own; any single mismatch refuses it; the directory is untouched either way'
+    if not good and acc and not all(acc):
+        # some accepting path does not force all stored values to equal the session's: run sessions differing in one parameter on the real build
+        rep.violation(title_, 'C11.verify_params', 'an accepting path of digital_rf_handle_metadata does not compare every stored parameter with the session\'s own (accept=%s)' % acc,
+                      replay_body=REPLAY_PARAMS, queries=ex.nq, solver_s=ex.tq, paths=n)
+        return
+    rep.ob(title_,
            'discharged' if good else 'inconclusive', 'all 12 stored values and all writer parameters symbolic (< 2^31)', ex.nq, ex.tq, n,
            detail=None if good else 'accept=%s reject=%s' % (acc, rej), sample={'attributes': ATTRS, 'paths': n})
+
+
+REPLAY_PARAMS = '''
+# a second session whose parameters differ from the stored ones in exactly one item must be refused and must leave the directory untouched
+from vlib import build, refmodel
+import numpy as np, tempfile, os, shutil, sys, glob, hashlib
+bad = 0
+base = dict(n=100, d=1, sc=3600, fc=1000, cont=0, dtype='short', cplx=0, nsub=1)
+variants = [('sample rate written as another fraction (200/2)', dict(n=200, d=2)), ('numerator', dict(n=101)), ('denominator', dict(d=3)), ('subdir cadence', dict(sc=7200)),
+            ('file cadence', dict(fc=500)), ('continuous flag', dict(cont=1)), ('complex flag', dict(cplx=1)), ('subchannels', dict(nsub=2)),
+            ('element size', dict(dtype='int')), ('element class', dict(dtype='float'))]
+def snap(ch): return {f: hashlib.md5(open(f, 'rb').read()).hexdigest() for f in sorted(glob.glob(os.path.join(ch, '**', '*'), recursive=True)) if os.path.isfile(f)}
+for what, chg in variants:
+    top = tempfile.mkdtemp(prefix='tmp.drf_'); ch = os.path.join(top, 'ch'); os.makedirs(ch)
+    S = 10**10
+    rw = refmodel.RealWriter(build, ch, base['n'], base['d'], base['sc'], base['fc'], S, base['cont'], dtype=base['dtype'], cplx=base['cplx'], nsub=base['nsub'])
+    rw.write_blocks([0], [0], np.arange(150, dtype=np.int16).reshape(-1, 1)); rw.close()
+    before = snap(ch)
+    p = dict(base, **chg)
+    rw2 = refmodel.RealWriter(build, ch, p['n'], p['d'], p['sc'], p['fc'], S, p['cont'], dtype=p['dtype'], cplx=p['cplx'], nsub=p['nsub'])
+    if rw2.obj:
+        print('a session differing in: %s was ACCEPTED' % what); bad = 1
+        rw2.close()
+    if snap(ch) != before: print('directory changed by a session differing in: %s' % what); bad = 1
+    shutil.rmtree(top)
+# and an identical session is accepted
+top = tempfile.mkdtemp(prefix='tmp.drf_'); ch = os.path.join(top, 'ch'); os.makedirs(ch)
+for i in range(2):
+    rw = refmodel.RealWriter(build, ch, 100, 1, 3600, 1000, 10**10, 0)
+    if not rw.obj: print('an identical session was refused'); bad = 1
+    else:
+        rw.write_blocks([300 * i], [0], np.arange(150, dtype=np.int16).reshape(-1, 1)); rw.close()
+shutil.rmtree(top)
+sys.exit(1 if bad else 0)
+'''
 
 
 TITLES = {'_bounds_merge': 'reader: bounds across top-level directories == (min first, max last) over the directories that hold data',
